@@ -282,7 +282,7 @@ def cnv_time(attribute, arg, element):
 def cnv_token(attribute, arg, element):
     return str(arg)
 
-pattern_viewbox = re.compile(r'-?[0-9]+([ ]+-?[0-9]+){3}\Z')
+pattern_viewbox = re.compile(r'[ \t\r\n]*[-+]?[0-9]+([ \t\r\n]+[-+]?[0-9]+){3}[ \t\r\n]*\Z')
 
 def cnv_viewbox(attribute, arg, element):
     global pattern_viewbox
